@@ -77,6 +77,23 @@ fn piece_strategy() -> BoxedStrategy<Vec<WOp>> {
             WOp::SetLen { slot, len: LenSpec::Rel(up) },
             WOp::Flush { slot },
         ]),
+        // a flushed large stream is removed (sectors released), two others are written into
+        // the released space and flushed, then everything flushed: what the first flush made
+        // durable must still be there after the second stream was written
+        2 => (0u8..3, large(), large(), large()).prop_map(|(name, a, b, c)| vec![
+            WOp::CreateStream { slot: 0, name },
+            WOp::WriteAll { slot: 0, data: a },
+            WOp::Flush { slot: 0 },
+            WOp::Close { slot: 0 },
+            WOp::RemoveStream { name },
+            WOp::CreateStream { slot: 0, name: (name + 1) % 3 },
+            WOp::WriteAll { slot: 0, data: b },
+            WOp::Flush { slot: 0 },
+            WOp::CreateStream { slot: 1, name: (name + 2) % 3 },
+            WOp::WriteAll { slot: 1, data: c },
+            WOp::Flush { slot: 1 },
+            WOp::CfbFlush,
+        ]),
         // overwrite + seek elsewhere (window move writes back) + flush
         1 => (slot.clone(), small(), any::<u16>()).prop_map(|(slot, sm, frac)| vec![
             WOp::SeekStart { slot, frac: 0 },
@@ -111,12 +128,26 @@ fn report(c: &C13Case) -> CaseReport {
     };
     rep.evaluations += 1;
     let n = base.n_calls;
-    // every position for workloads up to 1500 underlying calls; longer ones are strided
+    // every position for workloads up to 1000 underlying calls; longer ones are strided
     // (stride and offset are a function of the case) so that one case stays cheap
     let stride = (n / 1000).max(1);
     let offset = if stride > 1 { case_hash % stride } else { 0 };
     rep.classes.push(if stride == 1 { "all_positions".into() } else { "strided_positions".into() });
-    for k in (offset..n).step_by(stride as usize) {
+    // besides the strided positions: the first three and the last two underlying calls of
+    // every API call (the boundaries where a call has done nothing yet / almost everything)
+    let mut positions: std::collections::BTreeSet<u64> = (offset..n).step_by(stride as usize).collect();
+    if stride > 1 {
+        let mut starts = base.op_starts.clone();
+        starts.push(n);
+        for w in starts.windows(2) {
+            for k in [w[0], w[0] + 1, w[0] + 2, w[1].saturating_sub(1), w[1].saturating_sub(2)] {
+                if k >= w[0] && k < w[1] {
+                    positions.insert(k);
+                }
+            }
+        }
+    }
+    for k in positions.into_iter() {
         let ctl = new_ctl(FaultDomain::WriteSide);
         {
             let mut g = ctl.lock().unwrap();
@@ -171,7 +202,7 @@ pub fn def() -> PropDef {
     PropDef {
         id: "C13",
         level: "fault_enumeration",
-        rule: "mutating workload of 5-22 calls on a fresh file (create/remove storages and streams in a fixed 8-name namespace, write/write_all in chunks around the buffer capacity through up to 2 handles, seek, set_len, read, flush, close, set_state_bits, CompoundFile::flush; buffer sizes 1024/4096/default, both versions); the fault-free run counts N underlying write+seek+flush calls, then one run per k in [0,N) with call k failing; after an Err the call is retried once. Oracle: (a) the API call during which the fault fired returns Err (Drop exempt, as documented); (b) nothing panics and the worker's CPU budget holds; (c) whenever Stream::flush returns Ok, the underlying writer was flushed and a fresh handle reads back every byte accepted by earlier write calls on that handle at its offset (read-back Err is also a violation). evaluations = executions; a non-trivial item = an execution where the fault hit a call on a handle holding accepted-but-unflushed bytes and a later flush on that handle returned Ok; distinct = distinct (case, k).",
+        rule: "mutating workload of 5-22 calls on a fresh file (create/remove storages and streams in a fixed 8-name namespace, write/write_all in chunks around the buffer capacity through up to 2 handles, seek, set_len, read, flush, close, set_state_bits, CompoundFile::flush; buffer sizes 1024/4096/default, both versions); the fault-free run counts N underlying write+seek+flush calls, then one run per k in [0,N) with call k failing (workloads with N > 1000: a stride of N/1000 plus the first three and last two underlying calls of every API call; ten error kinds in rotation, with and without side effects of the failing call); after an Err the call is retried once. Oracle: (a) the API call during which the fault fired returns Err (Drop exempt, as documented); (b) nothing panics and the worker's CPU budget holds; (c) whenever Stream::flush returns Ok, the underlying writer was flushed and a fresh handle reads back every byte accepted by earlier write calls on that handle at its offset (read-back Err is also a violation); the raw bytes reopened show them too if they open; the bytes a successful flush made durable are read again after every later CompoundFile::flush and at the end - unless a call touched that stream - and must be unchanged (a read error is tolerated); ranges gained by set_len read as zero. evaluations = executions; a non-trivial item = an execution where the fault hit a call on a handle holding accepted-but-unflushed bytes and a later flush on that handle returned Ok; distinct = distinct (case, k).",
         assumptions: &["single faults are enumerated exhaustively per workload; workloads are sampled", "offsets truncated (or possibly truncated by a failed set_len) are dropped from the expectation"],
         quick_cases: 12,
         thorough_cases: 1500,
